@@ -1074,6 +1074,7 @@ class _FakeTime:
 def gen_stats_ops(rng):
     ops = []
     n_handles = 0
+    open_cm = [0]
     t = rng.choice([0, 0, 1, 100])
     for _ in range(rng.randint(1, 25)):
         x = rng.random()
@@ -1081,18 +1082,29 @@ def gen_stats_ops(rng):
         if x < 0.36 or n_handles == 0 and x < 0.7:
             ops.append({'o': 'start', 'n': cps(rng.choice(['A', 'A', 'B', 'Cé'])), 't': str(t)})
             n_handles += 1
-        elif x < 0.80 and n_handles:
+        elif x < 0.74 and n_handles:
             # mostly the most recent handles (properly nested use), sometimes any / already used ones
             idx = n_handles - 1 - rng.choice([0, 0, 0, 1, 2]) if rng.random() < 0.75 else rng.randrange(n_handles)
             ops.append({'o': 'stop', 'i': max(idx, 0), 't': str(t),
                         'rq': rng.choice([None, 0, 5, 100, 100, 2 ** 40]), 'rp': rng.choice([None, 0, 7, 3000]),
                         'sv': rng.choice([None, 0, 3, 3, 50, -1]), 'e': rng.random() < 0.3})
-        elif x < 0.86:
+        elif x < 0.84:
+            # `with statistics(name):` ... (entered now, left later; the body may raise: it must propagate)
+            ops.append({'o': 'enter', 'n': cps(rng.choice(['A', 'W', 'Cé'])), 't': str(t)})
+            open_cm[0] += 1
+        elif x < 0.88 and open_cm[0]:
+            ops.append({'o': 'exit', 't': str(t), 'raised': rng.random() < 0.5})
+            open_cm[0] -= 1
+        elif x < 0.90:
             ops.append({'o': 'reset'})
         elif x < 0.94:
             ops.append({'o': 'enable'})
         else:
             ops.append({'o': 'disable'})
+    while open_cm[0]:
+        t += 1
+        ops.append({'o': 'exit', 't': str(t), 'raised': rng.random() < 0.5})
+        open_cm[0] -= 1
     if rng.random() < 0.8:
         ops.insert(0, {'o': 'enable'})
     return ops
@@ -1132,6 +1144,27 @@ def real_stats_run(ops):
                     outs.append({'stop': _num(r)})
                 except RuntimeError:
                     outs.append({'exc': 'RuntimeError'})
+            elif op['o'] == 'enter':
+                st(common.from_cps(op['n'])).__enter__()
+                outs.append({'ok': None})
+            elif op['o'] == 'exit':
+                boom = ValueError('raised inside the with-block') if op.get('raised') else None
+                top = st._cm_stack[-1] if st._cm_stack else None
+                cnt0, sum0 = (top._count, top._time_sum) if top is not None else (0, 0)
+                try:
+                    if boom is not None:
+                        r = st.__exit__(type(boom), boom, None)
+                    else:
+                        r = st.__exit__(None, None, None)
+                    # the value stop_timer returned is not visible through __exit__: the model says what it was
+                    outs.append({'exit': 'see-model', 'suppress': bool(r), 'raised': bool(op.get('raised')),
+                                 'measured': top._count - cnt0, 'dt': _num(top._time_sum - sum0),
+                                 'name': None if top is st._disabled_stats else top.name,
+                                 'current': top is not st._disabled_stats and st._op_stats.get(top.name) is top})
+                except RuntimeError:
+                    outs.append({'exc': 'RuntimeError'})
+                except IndexError:
+                    outs.append({'exc': 'IndexError'})
             elif op['o'] == 'reset':
                 ok = st.reset()
                 gens += 1 if ok else 0
@@ -1168,6 +1201,14 @@ def stats_oracle(ops, real):
     under its name (since the last successful reset), exceptions iff flagged, and min*count <= sum <= max*count"""
     names = []            # handle index -> name | None (dummy)
     want = {}
+    early = []
+    for k, (op, out) in enumerate(zip(ops, real['outs'])):
+        if op['o'] == 'exit' and out.get('suppress'):
+            early.append(({'kind': 'statistics_context_manager_swallows_exception', 'raised': bool(op.get('raised'))},
+                          {'op_index': k, 'what': '__exit__ returned a true value: an exception raised inside '
+                                                  '`with statistics(name):` does not reach the caller'}))
+    if early:
+        return early
     for op, out in zip(ops, real['outs']):
         if op['o'] == 'start':
             names.append(None if out.get('h') == 'dummy' else common.from_cps(op['n']))
@@ -1176,6 +1217,10 @@ def stats_oracle(ops, real):
             w[0] += 1
             w[1] += 1 if op['e'] else 0
             w[2] += int(out['stop'])
+        elif op['o'] == 'exit' and out.get('measured') and out.get('current'):
+            w = want.setdefault(out['name'], [0, 0, 0])
+            w[0] += 1
+            w[2] += int(out['dt'])
         elif op['o'] == 'reset' and out.get('reset'):
             want = {}
     bad = []
@@ -1211,10 +1256,72 @@ def stats_stream(run, n):
         run.count('stats:resets-refused', sum(1 for o in real['outs'] if o.get('reset') is False))
         for sig, observed in stats_oracle(ops, real):
             run.violate(sig, case, observed)
+        a = json.loads(json.dumps(a))
+        for o_m, o_r in zip(a.get('outs', []), real['outs']):
+            if 'exit' in o_m and 'exit' in o_r:
+                for k_ in ('measured', 'dt', 'name', 'current', 'raised'):
+                    o_m[k_] = o_r.get(k_)
+                if (o_m['exit'] is not None) != bool(o_r.get('measured')):
+                    o_m['exit'] = 'model-measured:%s' % o_m['exit']       # disagreement on whether the exit measured
+                else:
+                    o_m['exit'] = 'see-model'
         if a != real:
             run.disagree(case, a, real, 'statistics arithmetic')
         if not consistent:
             run.disagree(case, {'avg': 'sum/count'}, {'avg': 'differs'}, 'statistics avg_* properties')
+
+
+# --------------------------------------------------------------------------- (d') mock set-up calls under statistics
+
+MOCK_MOF_OK = """
+Qualifier Key : boolean = false, Scope(property, reference), Flavor(DisableOverride, ToSubclass);
+class C19_A { [Key] string k; uint32 v; };
+"""
+MOCK_SETUP_CALLS = ['compile_good', 'compile_missing_superclass', 'compile_syntax_error', 'add_duplicate_instance',
+                    'compile_missing_file', 'add_instance_of_unknown_class']
+
+
+def mock_setup_outcome(call, stats_enabled):
+    """one set-up call of FakedWBEMConnection (they run inside `with self.statistics(name):`)"""
+    import pywbem
+    import pywbem_mock
+    conn = pywbem_mock.FakedWBEMConnection(default_namespace='root/c19', stats_enabled=stats_enabled)
+    conn.compile_mof_string(MOCK_MOF_OK)
+    inst = pywbem.CIMInstance('C19_A', {'k': 'x', 'v': pywbem.Uint32(1)},
+                              path=pywbem.CIMInstanceName('C19_A', {'k': 'x'}, namespace='root/c19'))
+    conn.add_cimobjects(inst)
+    try:
+        if call == 'compile_good':
+            r = conn.compile_mof_string('class C19_B : C19_A { string s; };')
+        elif call == 'compile_missing_superclass':
+            r = conn.compile_mof_string('class C19_C : C19_Nope { string s; };')
+        elif call == 'compile_syntax_error':
+            r = conn.compile_mof_string('class { ;')
+        elif call == 'add_duplicate_instance':
+            r = conn.add_cimobjects(inst)
+        elif call == 'compile_missing_file':
+            r = conn.compile_mof_file('/nonexistent/c19.mof')
+        else:
+            r = conn.add_cimobjects(pywbem.CIMInstance('C19_Nope', {'k': 'y'},
+                                                       path=pywbem.CIMInstanceName('C19_Nope', {'k': 'y'})))
+        out = {'ok': repr(r)}
+    except Exception as e:  # noqa
+        out = common.exc_json(e)
+    classes = sorted(conn.EnumerateClassNames(DeepInheritance=True))
+    return out, classes
+
+
+def mock_setup_stream(run):
+    """oracle only: the set-up calls of the mock must behave the same with statistics enabled and disabled"""
+    for call in MOCK_SETUP_CALLS:
+        off, on = mock_setup_outcome(call, False), mock_setup_outcome(call, True)
+        case = {'stream': 'mock_setup', 'call': call}
+        run.case(case, nontrivial='exc' in off[0])
+        run.count('mock-setup:' + off[0].get('exc', 'ok'))
+        if off != on:
+            run.violate({'kind': 'outcome_changed_by_statistics', 'api': 'mock-setup', 'call': call,
+                         'observed': on[0].get('exc', 'ok'), 'bare': off[0].get('exc', 'ok')},
+                        case, {'stats_disabled': off, 'stats_enabled': on})
 
 
 # --------------------------------------------------------------------------- (e) configure_logger stream
@@ -1303,10 +1410,17 @@ def real_logcfg(item):
             del cap.records[:]
             outs.append({'exc': exc, 'events': evs, 'state': state()})
         final = state()
+        try:
+            cpy = conn.copy()
+            copied = {'exc': None, 'recorders': _recorders_state(cpy),
+                      'events': [{'log': record_event(r)['log'], 'kind': record_event(r)['kind']} for r in cap.records]}
+        except Exception as e:  # noqa
+            copied = {'exc': type(e).__name__, 'recorders': [], 'events': []}
+        del cap.records[:]
         conn2 = pywbem.WBEMConnection(URL, creds_of(item['creds']))
         new = {'recorders': _recorders_state(conn2), 'events': [{'log': record_event(r)['log'], 'kind': record_event(r)['kind']}
                                                                   for r in cap.records]}
-        return {'calls': outs, 'newConn': new, 'final': final}, str(conn), repr(conn)
+        return {'calls': outs, 'copy': copied, 'newConn': new, 'final': final}, str(conn), repr(conn)
     finally:
         cap.close()
         sys.stderr = old_stderr
@@ -1333,6 +1447,11 @@ def logcfg_stream(run, n):
                 if L.PASSWORD in text:
                     run.violate({'kind': 'password_leak', 'where': where, 'creds_type': item['creds']},
                                 {'stream': 'logcfg', 'item': item}, {'where': where})
+        if real['copy']['exc'] is not None:
+            # copy() of a connection without logging always succeeds: logging must not turn it into a failure
+            run.violate({'kind': 'outcome_changed', 'api': 'WBEMConnection.copy', 'observed': real['copy']['exc'],
+                         'bare': 'ok', 'log': True},
+                        {'stream': 'logcfg', 'item': item}, {'copy': real['copy']})
         if sp is None or rp is None:
             run.disagree({'stream': 'logcfg', 'item': item}, {'creds_text': ct}, {'str/repr': 'expected text absent'},
                          'credential text in str()/repr() of the connection')
@@ -1433,6 +1552,7 @@ def run(run):
     utf8_stream(run, n_utf)
     toyaml_stream(run, n_val)
     stats_stream(run, 12000 if run.thorough else 1500)
+    mock_setup_stream(run)
     logcfg_stream(run, 4000 if run.thorough else 500)
     cases = [gen_case(rng, run.thorough) for _ in range(n_ops)]
     run_cases(run, cases)
@@ -1456,6 +1576,16 @@ def search(run):
 
 def replay(payload):
     case = payload['case']
+    if case.get('stream') == 'logcfg':
+        real, _, _ = real_logcfg(case['item'])
+        if real['copy']['exc'] is not None:
+            return False, 'property C19 FAILS: conn.copy() raises %s after these configure_logger calls' % real['copy']['exc']
+        return True, 'property C19 holds on this configure_logger sequence (copy() works)'
+    if case.get('stream') == 'mock_setup':
+        off, on = mock_setup_outcome(case['call'], False), mock_setup_outcome(case['call'], True)
+        if off != on:
+            return False, 'property C19 FAILS: %s differs with statistics enabled: %s vs %s' % (case['call'], on, off)
+        return True, 'property C19 holds: %s behaves the same with statistics on and off: %s' % (case['call'], off[0])
     if case.get('stream') == 'stats':
         real, _ = real_stats_run(case['ops'])
         bad = stats_oracle(case['ops'], real)
